@@ -119,6 +119,34 @@ var specs = map[string]Spec{
 		QuickFloors: map[string]int64{"faults_fired": 300, "src_acks_checked": 1000},
 		MaxSamples:  1,
 	},
+	"C06": {
+		Engine: "fwdsim", Run: "^TestForward$", Race: true,
+		QuickShards: 16, ThoroughShards: 16, QuickWatchdog: 8 * time.Minute, ThoroughWatchdog: 60 * time.Minute,
+		MaxProcs: []int{16, 4, 2, 1},
+		Level:     "fault_enumeration",
+		LevelText: "The real pass-through handler (StreamForwarder, default and LCM modes) runs between an in-memory initiator and an in-memory source in virtual time; for every position of six two-direction scripts of 12 messages and every way either side can end (clean EOF, error status, half-close, cancel, disconnect, failing Send in either direction, unknown message kind from either side) under four progress skews, the oracle checks prefix-faithful relay in both directions, completeness before clean endings, that the handler returns within a bound on the virtual clock, that the source side was half-closed or cancelled, and that no goroutine of the proxy is left (census of stacks).",
+		LevelNote: "Trusted: the in-memory gRPC stream model (status on handler return, context cancellation on return, io.EOF on Send to a finished stream, bounded window). Proxy shutdown (lifetime) is not observed by the forwarder itself and is exercised only through the assembled servers in the wire engine.",
+		Technique: "runtime monitor + fault injection: enumerated ending kinds x positions on the real forwarder in virtual time; relay-prefix and termination oracles; goroutine census; race detector",
+		DesignRef: "DESIGN.md §4 C06",
+		Rule:      "cases = mode x script x ending kind x position x progress skew (quick: all positions for the lockstep skew and every second one for the others; thorough: all, plus 20k random scripts); distinct = distinct (mode,script,ending,position,skew) tuples, all non-trivial (each relays or ends a stream)",
+		Assumptions: []string{"in-memory stream pair with gRPC semantics; every message deep-copied at the boundary", "virtual time (testing/synctest); consumers may be slow but never stop reading for ever"},
+		QuickFloors: map[string]int64{"positions": 1500, "handler_returned": 1000},
+		MaxSamples:  2,
+	},
+	"C07": {
+		Engine: "fwdsim", Run: "^TestLCM$", Race: false,
+		QuickShards: 16, ThoroughShards: 16, QuickWatchdog: 8 * time.Minute, ThoroughWatchdog: 60 * time.Minute,
+		Level:     "exploration",
+		LevelText: "The real handler in LCM mode (parameters built with the repository's common.LCM exactly as NewClusterConnection builds them, both directions) answers DescribeCluster and serves one stream per LCM shard id; the forwarded metadata recorded by a fake serving cluster is compared with independent 64-bit arithmetic: reported count = lcm, exactly one outgoing stream, server shard = ((s-1) mod count)+1, initiator shard = s, cluster ids and other metadata preserved, no panic, nothing mapped outside 1..count; workflow-hash consistency on random ids with farm32 computed by the harness. All pairs in 1..12 (thorough 1..24) with every shard id are exhaustive; powers of two and mixed composites up to 16384 use boundary and random shard ids.",
+		LevelNote: "The direction wiring inside NewClusterConnection (which server gets which TargetShardCount) and the DescribeCluster override in the assembled servers are observed by the wire engine, not here. Trusted: harness arithmetic, fake serving cluster.",
+		Technique: "runtime monitor: differential check of the real LCM handler's observable routing (recorded outgoing stream metadata, DescribeCluster answer) against an independent arithmetic oracle, bounded-exhaustive + boundary/random inputs",
+		DesignRef: "DESIGN.md §4 C07",
+		Rule:      "a case = one (local, remote, direction) block: DescribeCluster + one stream per chosen LCM shard id (+4 ids just outside the range) + 400 random workflow ids; distinct = distinct (local,remote,direction) triples; all non-trivial",
+		Exhaustive: "all (local,remote) pairs in 1..12 (quick) / 1..24 (thorough), both directions, every LCM shard id",
+		Assumptions: []string{"fake serving cluster records the outgoing stream metadata; in-memory streams; virtual time"},
+		QuickFloors: map[string]int64{"streams": 8000, "exhaustive_blocks_completed": 288},
+		MaxSamples:  2,
+	},
 	"C05": {
 		Engine: "ringmodel", Run: "^TestRing$", Race: false,
 		QuickShards: 16, ThoroughShards: 16, QuickWatchdog: 5 * time.Minute, ThoroughWatchdog: 40 * time.Minute,
